@@ -36,6 +36,14 @@ IsImageSrc(ev) == Has(ev, "src") /\ ev.src = "image" /\ ~Has(ev, "edits") /\ ~Ha
 \* round-trip context: the input is the image that the current, accepted configuration just wrote
 RtCtx(ev) == IsImageSrc(ev) /\ ~IsNone(bld.cfg) /\ ~IsNone(wr) /\ IsOk(wr.res) /\ Accepts(bld.cfg)
 
+\* a raw / third-party member that impersonates a built-in packet type need not parse as that type
+\* (e.g. UnknownBuilder(type 200) with a 4-byte body is not a sender report): the parse-back clause
+\* of C14 is stated for members that parse on their own
+LeafParses(leaf) ==
+    CASE leaf.kind = "unk"    -> leaf.type \notin 200..206
+      [] leaf.kind = "custom" -> leaf.pt \notin 200..206 /\ Size(leaf) >= leaf.min
+      [] OTHER -> TRUE
+
 \* ---- conformance of one logged event in the current state
 ParseEvConf(ev) ==
     /\ P("C01") => ev.panics = <<>>
@@ -44,14 +52,15 @@ ParseEvConf(ev) ==
          [] ev.kind \in FciTypes -> FciDirectConf(ev.kind, ev.b, ev.res)
          [] ev.kind = "custom" -> CustomConf(ev.fam, ev.b, ev.res)
     \* round trip: the image just written from bld parses back to bld's configuration
-    /\ (RtCtx(ev) /\ ev.kind = bld.cfg.kind /\ P(RoundTripProp(ev.kind))) =>
+    /\ (RtCtx(ev) /\ ev.kind \in PacketKinds /\ ev.kind = bld.cfg.kind /\ P(RoundTripProp(ev.kind))) =>
           /\ ev.b = img
           /\ IsOk(ev.res)
           /\ RoundTripOk(bld.cfg, ev.b, ev.res.view, 0)
     /\ (RtCtx(ev) /\ ev.kind = "packet" /\ P("C19") /\ bld.cfg.kind \in {"unk", "custom"}) =>
           LET pt == IF bld.cfg.kind = "unk" THEN bld.cfg.type ELSE bld.cfg.pt
-          IN  /\ ev.b = img /\ IsOk(ev.res)
-              /\ pt \notin 200..206 =>
+          IN  /\ ev.b = img
+              /\ (pt \notin 200..206 /\ (bld.cfg.kind = "unk" \/ Size(bld.cfg) >= bld.cfg.min)) =>
+                    /\ IsOk(ev.res)
                     /\ ev.res.view.variant = "unknown"
                     /\ ev.res.view.inner.data.o = 0 /\ ev.res.view.inner.data.n = Len(img)
     /\ (RtCtx(ev) /\ ev.kind = "custom" /\ P("C19") /\ bld.cfg.kind = "custom") =>
@@ -136,6 +145,7 @@ Update(ev) ==
       [] ev.op = "cparse" ->
             /\ cit' = CitAfterParse(ev.b, ev.res,
                          IF RtCtx(ev) /\ bld.cfg.kind = "compound" /\ ev.b = img
+                            /\ \A i \in 1..Len(Leaves(bld.cfg)) : LeafParses(Leaves(bld.cfg)[i])
                          THEN Leaves(bld.cfg) ELSE <<>>)
             /\ UNCHANGED << bld, ann, wr, img, nit >>
       [] ev.op = "cnext" -> cit' = CitAfterNext(cit, ev.res) /\ UNCHANGED << bld, ann, wr, img, nit >>
